@@ -73,7 +73,10 @@ def harness(tier, seed):
                 return (v if 0.0 <= v <= 1e100 else 1e200), sum(r for _, r in js)
             for sq in range(n_seq):
                 obj = cls(inst, True)
-                obj.initialize()
+                # (the fourth scripted history uses the objective as constructed, without an initialize() first: a new
+                # object is in real-system mode and records data from its first evaluation on)
+                if sq != 3:
+                    obj.initialize()
                 mode = "raw"
                 collected = 0
                 trace = []
@@ -81,7 +84,8 @@ def harness(tier, seed):
                 # every run, whatever the seed), then random ones
                 scripts = [["eval", "init", "eval", "get_diff"],
                            ["eval", "set_model", "eval", "set_raw", "eval", "get_diff"],
-                           ["eval", "get_diff", "eval", "get_diff", "init", "eval", "get_diff"]]
+                           ["eval", "get_diff", "eval", "get_diff", "init", "eval", "get_diff"],
+                           ["eval", "get_diff", "set_model", "eval", "set_raw", "eval", "get_diff"]]
                 if sq < len(scripts):
                     ops = scripts[sq]
                 else:
